@@ -615,3 +615,229 @@ def obligation(tier, props, name, measure):
         outside="k > 4 base modalities; totals beyond the sampled compositions; verbose printing",
         twin_every=6, abstract_ok=(measure == "abstract"), budget_s=5.0,
     )
+
+
+# ============================================================================= ContinuousCarver selection logic (O1.4)
+def h_select_cont(ctx, k, labelset, sizes, has_nan, nan_size, max_n_mod, mfm, dropna, props):
+    try:
+        return _h_select_cont(ctx, k, labelset, sizes, has_nan, nan_size, max_n_mod, mfm, dropna, props)
+    except Violation as v:
+        v.extra = dict(v.extra or {}, carver="continuous", nan=has_nan, dropna=dropna)
+        raise
+
+
+def _h_select_cont(ctx, k, labelset, sizes, has_nan, nan_size, max_n_mod, mfm, dropna, props):
+    """The real _get_best_combination of a ContinuousCarver on a Series of y-lists whose elements are
+    symbolic reals (list lengths concrete => frequencies concrete, means linear); Kruskal-Wallis is an
+    abstract measure (one fresh real >= 0 per distinct grouping)."""
+    from AutoCarver.carvers import continuous_carver as cm
+    from AutoCarver.discretizers import GroupedList
+
+    conc = getattr(ctx, "concrete", False)
+    labels = LABELSETS[labelset][:k]
+    all_labels = labels + ([NAN] if has_nan else [])
+    all_sizes = list(sizes) + ([nan_size] if has_nan else [])
+    # target values range over a small integer domain: sums and means are then exact in floating point and
+    # distinct means differ by far more than isclose's tolerance (F3), so the real-arithmetic model is exact
+    ylists = [[ctx.count(f"y{i}_{j}", -2, 2) for j in range(sz)] for i, sz in enumerate(all_sizes)]
+    if mfm == "sym":
+        mf = ctx.real("min_freq_mod")
+        ctx.assume(mf > 0)
+        ctx.assume(mf <= 0.5)
+    else:
+        mf = mfm
+    c = cm.ContinuousCarver(min_freq=0.1, quantitative_features=["f"] if labelset == "quant" else None,
+                            qualitative_features=["f"] if labelset != "quant" else None, max_n_mod=max_n_mod, min_freq_mod=mf, dropna=dropna, copy=True)
+    c.values_orders = {"f": GroupedList(list(all_labels))}
+    order = GroupedList(list(all_labels))
+    yval = pd.Series([list(l) for l in ylists], index=all_labels, dtype=object)
+    memo, stage = {}, {"cands": None, "stage1": None, "done2": False}
+
+    real_measure = conc and getattr(ctx, "purpose", "replay") == "replay"  # counterexamples must replay with the real Kruskal-Wallis H
+
+    def measure_symbol(key):
+        if key not in memo:
+            if real_measure:
+                from scipy.stats import kruskal
+                try:
+                    memo[key] = float(kruskal(*[[v for i in g for v in ylists[i]] for g in key])[0])
+                except ValueError:
+                    memo[key] = float("nan")
+                return memo[key]
+            name = "meas_" + "|".join(",".join(str(i) for i in sorted(g)) for g in sorted(key, key=lambda g: min(g)))
+            v = ctx.real(name)
+            ctx.assume(v >= 0)
+            memo[key] = v
+        return memo[key]
+
+    def abstract_measure(yv, **kwargs):
+        # identify the grouping from the lists handed over (by identity of their elements)
+        idx_of = {}
+        for i, lst in enumerate(ylists):
+            for v in lst:
+                idx_of[id(v)] = i
+        groups = []
+        for lst in yv.values:
+            members = set()
+            for v in lst:
+                i = idx_of.get(id(v))
+                if i is None and conc:
+                    continue
+                members.add(i)
+            groups.append(frozenset(members))
+        if conc:  # concrete twin: floats carry no identity; recover the grouping from the index labels
+            groups = [frozenset(stage["cands_by_index"][tuple(yv.index)][n]) for n in range(len(yv))] if tuple(yv.index) in stage.get("cands_by_index", {}) else groups
+        key = frozenset(groups)
+        # the lists handed to the measure are exactly the concatenated y-lists of the groups
+        if not conc:
+            for lst, g in zip(yv.values, groups):
+                exp_n = sum(all_sizes[i] for i in g)
+                ctx.require(len(lst) == exp_n, "C01.measured-table", f"measure received {len(lst)} target values for group {sorted(g)} holding {exp_n}")
+        v = measure_symbol(key)
+        return {"kruskal": v}
+
+    if not real_measure:
+        c._association_measure = abstract_measure
+
+    orig_gba = c._get_best_association
+
+    def gba_wrapper(feature, order_, xagg_, combinations, *, xagg_dev=None, dropna=False):
+        if dropna:
+            stage["done2"] = True
+            stage["stage1"] = [sorted(labels.index(v) for v in order_.get(l)) for l in order_ if l != NAN]
+        # index -> groups map for the concrete twin
+        by_index = {}
+        for comb in combinations:
+            lead = tuple(dict.fromkeys(g[0] for g in comb))
+            grp = []
+            for g in comb:
+                mem = []
+                for lab in g:
+                    if lab == NAN:
+                        mem.append(k)
+                    elif dropna:
+                        mem += [i for s1 in stage["stage1"] if labels[s1[0]] == lab for i in s1]
+                    else:
+                        mem.append(labels.index(lab))
+                grp.append(mem)
+            by_index[lead] = grp
+        stage["cands_by_index"] = by_index
+        return orig_gba(feature, order_, xagg_, combinations, xagg_dev=xagg_dev, dropna=dropna)
+
+    c._get_best_association = gba_wrapper
+    with rebound(ctx, ["R5"] if not conc else []):
+        try:
+            res = c._get_best_combination("f", order, yval, xagg_dev=None)
+        except Violation:
+            raise
+        except AssertionError as e:
+            ctx.require(False, "C08.selection-assertion", f"ContinuousCarver._get_best_combination raised AssertionError: {str(e)[:200]}")
+        except Exception as e:
+            import traceback
+            ctx.require(False, "C08.selection-internal-error", f"ContinuousCarver._get_best_combination raised {type(e).__name__}: {str(e)[:200]} | {traceback.format_exc(limit=-3)[-500:]}")
+
+    # ---------------- specification
+    def mean_of(members):
+        vals = [v for i in members for v in ylists[i]]
+        return sum(vals) / len(vals), len(vals)
+
+    def close(a, b):  # numpy.isclose(a, b) with default tolerances
+        d = a - b
+        ad = d if isinstance(d, (int, float)) and d >= 0 else (-d if isinstance(d, (int, float)) else abs(d))
+        ab = b if isinstance(b, (int, float)) and b >= 0 else (-b if isinstance(b, (int, float)) else abs(b))
+        return ad <= 1e-08 + 1e-05 * ab
+
+    def viability(members_list, total):
+        must, may = [], []
+        for mem in members_list:
+            n_ = sum(all_sizes[i] for i in mem)
+            must.append(n_ / total >= mf)
+            may.append(n_ / total >= mf)
+        means = [mean_of(mem)[0] for mem in members_list]
+        nan_alone_last = len(members_list) > 1 and members_list[-1] == [k]
+        for n_, (a, b) in enumerate(zip(means[1:], means[:-1])):  # isclose(rate[i], rate[i-1])
+            must.append(snot(close(a, b)))
+            if not (nan_alone_last and n_ == len(means) - 2):
+                may.append(snot(eqv(a, b)))
+        return sand(must), sand(may)
+
+    nn_total = sum(sizes)
+    full_total = nn_total + (nan_size if has_nan else 0)
+    parts = spec_partitions(k, max_n_mod)
+    stage1 = [(frozenset(frozenset(g) for g in p), p, viability(p, nn_total)) for p in parts]
+    if res is None:
+        if not stage["done2"]:
+            ctx.require(snot(sor([v[0] for _, _, v in stage1])), "C01.dropped-although-viable", f"ContinuousCarver: nothing returned although a viable stage-1 grouping exists (sizes {sizes})")
+            outcome = "none-stage1"
+        else:
+            g1 = stage["stage1"]
+            st2 = []
+            for q in spec_nan_placements(g1, max_n_mod):
+                members = [[(k if it == NAN else None) for it in grp] for grp in q]
+                members = [[i for it in grp for i in ([k] if it == NAN else g1[it])] for grp in q]
+                st2.append((members, viability(order_members(members, k), full_total)))
+            ctx.require(snot(sor([v[0] for _, v in st2])), "C01.dropped-although-viable", f"ContinuousCarver: nothing returned although a viable NaN placement exists (stage-1 {g1})")
+            outcome = "none-stage2"
+        return dict(counters={outcome: 1}, sample=dict(k=k, sizes=sizes, outcome=outcome), result=dict(outcome=outcome))
+    new_order = res[0]
+    got_groups = [[(k if v == NAN else labels.index(v)) for v in new_order.get(l)] for l in new_order]
+    got_key = frozenset(frozenset(g) for g in got_groups)
+    ctx.require(sorted(i for g in got_groups for i in g) == list(range(k + (1 if has_nan else 0))), "C08.partition", f"returned order is not a partition: {got_groups}")
+    groups1 = stage["stage1"] if stage["done2"] else [sorted(i for i in g if i != k) for g in got_groups if any(i != k for i in g)]
+    key1 = frozenset(frozenset(g) for g in groups1)
+    e1 = [e for e in stage1 if e[0] == key1]
+    ctx.require(len(e1) == 1, "C01.not-a-candidate", f"stage-1 grouping {groups1} is not a contiguous partition into 2..{max_n_mod} groups")
+    ctx.require(e1[0][2][1], "C01.non-viable-accepted" if "C02" not in props else "C02.constraint-violated", f"ContinuousCarver: stage-1 grouping {groups1} is not viable (sizes {sizes})")
+    m1 = measure_symbol(key1)
+    for key, p, (must, may) in stage1:
+        if key != key1:
+            mo = measure_symbol(key)
+            if isinstance(mo, float) and mo != mo:
+                continue
+            ctx.require(snot(sand([must, mo > m1])), "C01.not-optimal", f"ContinuousCarver: {groups1} chosen although {p} is viable and more associated")
+    outcome = "stage1"
+    if stage["done2"]:
+        st2 = []
+        for q in spec_nan_placements(groups1, max_n_mod):
+            members = [[i for it in grp for i in ([k] if it == NAN else groups1[it])] for grp in q]
+            st2.append((frozenset(frozenset(m_) for m_ in members), members, viability(order_members(members, k), full_total)))
+        e2 = [e for e in st2 if e[0] == got_key]
+        ctx.require(len(e2) >= 1, "C01.not-a-candidate", f"final grouping {got_groups} is not a NaN placement over {groups1}")
+        ctx.require(len(got_groups) <= max_n_mod, "C02.too-many-groups", f"{len(got_groups)} groups > max_n_mod")
+        ctx.require(e2[0][2][1], "C01.non-viable-accepted" if "C02" not in props else "C02.constraint-violated", f"ContinuousCarver: NaN placement {got_groups} is not viable")
+        m2 = measure_symbol(got_key)
+        for key, members, (must, may) in st2:
+            if key != got_key:
+                mo = measure_symbol(key)
+                if isinstance(mo, float) and mo != mo:
+                    continue
+                ctx.require(snot(sand([must, mo > m2])), "C01.not-optimal", f"ContinuousCarver: NaN placement {got_groups} chosen although {members} is viable and more associated")
+        outcome = "stage2"
+    elif has_nan:
+        ctx.require([k] in got_groups, "C02.nan-touched", f"dropna=False but NaN was merged: {got_groups}")
+    if "C16" in props:
+        check_history(ctx, c, labels, k, got_groups, groups1, "kruskal", stage["done2"], has_nan)
+    return dict(counters={outcome: 1}, sample=dict(k=k, sizes=sizes, groups=got_groups, outcome=outcome), result=dict(groups=[sorted(g) for g in got_groups]),
+                twin_distinct=[n for n in getattr(ctx, "symbols", {}) if n.startswith("meas_")])
+
+
+def obligation_cont(tier, props, name):
+    quick = tier == "quick"
+    jobs = []
+    shapes = [(2, (2, 2), 2), (3, (1, 2, 1), 3), (3, (2, 1, 2), 2)] if quick else [(2, (2, 2), 2), (2, (1, 3), 3), (3, (1, 2, 1), 3), (3, (2, 1, 2), 2), (3, (2, 2, 2), 3), (4, (1, 2, 1, 2), 2)]
+    for k, sizes, mnm in shapes:
+        for labelset in (("quant", "ord") if quick else ("quant", "ord", "alpha")):
+            for has_nan, nan_size, dropna in ((False, 0, True), (True, 1, False)) + (((True, 1, True),) if (k == 2 or not quick) else ()):
+                if has_nan and dropna and k >= 3 and mnm >= 3 and quick:
+                    continue
+                for mfm in ((0.25,) if k >= 3 else (0.25, "sym")):
+                    jobs.append(dict(k=k, labelset=labelset, sizes=sizes, has_nan=has_nan, nan_size=nan_size, max_n_mod=mnm, mfm=mfm, dropna=dropna, props=sorted(props)))
+    return Obligation(
+        name=name, harness=h_select_cont, jobs=jobs,
+        encodes=["BaseCarver._get_best_combination/_get_best_association/_test_viability/_historize_viability_test", "ContinuousCarver._grouper", "ContinuousCarver._printer",
+                 "base_carver.consecutive_combinations/nan_combinations/order_apply_combination/xagg_apply_order/filter_nan"],
+        rebindings=["R5 isclose -> formula on symbolic means", "R6 Kruskal-Wallis H -> one fresh real >= 0 per distinct grouping"],
+        bounds=f"k <= {3 if quick else 4} modalities (+NaN), 1-3 target values per modality (symbolic, integer domain -2..2: exact float means, F3), max_n_mod 2-3, min_freq_mod 0.25 or symbolic",
+        outside="dev samples for the continuous carver at kernel level (covered end to end by O1.5 only without dev)",
+        twin_every=6, abstract_ok=True, budget_s=5.0,
+    )
